@@ -22,3 +22,16 @@ Example C05_example :
   hi (exec_ops k [2%nat] s [ONodeDown 2 None] 1%nat) == 1#4.
 Proof. vm_compute. reflexivity. Qed.
 Print Assumptions C05_example.
+
+(* ---------- first-order tables ---------- *)
+From LNN Require Import Fol.
+From LNN.proofs Require Import FolProofs StoreProofs.
+(* every (formula, grounding) READS only tighter bounds after any sequence of inference calls (a grounding
+   without a row reads as the world default, so rows that inference introduces count too), groundings
+   once present never disappear, bounds stay in [0,1], stored data is not touched; homogeneous and
+   heterogeneous joins, nests, Not, node-level and model-level calls *)
+Theorem C05_fol_monotone : forall k roots s ops, FRange s ->
+  (forall i g, tighter (fget s i g) (fget (fexec_ops k roots s ops) i g)) /\
+  (forall i g, In g (tkeys (ftab s i)) -> In g (tkeys (ftab (fexec_ops k roots s ops) i))).
+Proof. intros k roots s ops HR. destruct (fexec_ops_ok k roots ops s HR) as (_ & L & K & _). split; assumption. Qed.
+Print Assumptions C05_fol_monotone.
